@@ -121,3 +121,87 @@ Proof.
   - intros o Ho. destruct (support_iter_bounds eps 0 Heps l o H Ho) as [[a [Ia Ea]] [b [Ib Eb]]].
     destruct (Hw a Ia), (Hw b Ib). lia.
 Qed.
+
+(* ---- eps > 0, the other direction: duration() exceeds the number of covered cells by at most eps per
+        member (each bridged gap is no longer than the precision) ---- *)
+Lemma count_le_add lo n f g h :
+  (forall k, lo <= k < lo + Z.of_nat n -> f k = true -> g k = true \/ h k = true) ->
+  count lo n f <= count lo n g + count lo n h.
+Proof.
+  revert lo. induction n as [|n IH]; intros lo H; cbn [count]; [lia|].
+  assert (IH' := IH (lo + 1) (fun k Hk => H k ltac:(lia))).
+  destruct (f lo) eqn:Ef.
+  - destruct (H lo ltac:(lia) Ef) as [E|E]; rewrite E; destruct (g lo), (h lo); lia.
+  - destruct (g lo), (h lo); lia.
+Qed.
+Lemma count_nonneg lo n f : 0 <= count lo n f.
+Proof. revert lo. induction n as [|n IH]; intro lo; cbn [count]; [lia|]. specialize (IH (lo + 1)). destruct (f lo); lia. Qed.
+
+Section Upper.
+Variable eps : Z.
+Hypothesis Heps : 0 <= eps.
+Variables (lo : Z) (n : nat).
+Definition inwin (s : seg) : Prop := lo <= st s /\ en s <= lo + Z.of_nat n.
+
+Lemma th_zero_collar : SupportP.th eps 0 = eps.
+Proof. unfold SupportP.th. lia. Qed.
+
+Lemma sweep_upper : forall l cur,
+  ne eps cur -> Forall (ne eps) l -> st_sorted l -> starts_after cur l ->
+  (forall s, In s (cur :: l) -> inwin s) ->
+  sum_durations 0 (support_go eps 0 cur l) <= count lo n (cellsb (cur :: l)) + eps * Z.of_nat (length l).
+Proof.
+  apply (sweep_ind eps 0 Heps (fun cur l out =>
+           (forall s, In s (cur :: l) -> inwin s) ->
+           sum_durations 0 out <= count lo n (cellsb (cur :: l)) + eps * Z.of_nat (length l))).
+  - intros cur Hc Hw. destruct (Hw cur (or_introl eq_refl)) as [W1 W2]. apply ne_gt in Hc.
+    rewrite sum_durations_cons. change (sum_durations 0 []) with 0.
+    rewrite (count_ext lo n (cellsb [cur]) (cellb cur)) by (intros k _; unfold cellsb; simpl; now rewrite orb_false_r).
+    rewrite count_seg. unfold duration, nonempty. destruct (en cur - st cur >? 0) eqn:E; simpl; lia.
+  - intros cur s r cur' Hc Hns Hlr Hs Ha E Hc' Ha' Sc' Ec' Lc Ls IH Hw.
+    rewrite th_zero_collar in E.
+    assert (Hw' : forall x, In x (cur' :: r) -> inwin x).
+    { intros x [<-|Hx]; [|apply Hw; right; now right].
+      destruct (Hw cur (or_introl eq_refl)), (Hw s (or_intror (or_introl eq_refl))). unfold inwin. lia. }
+    specialize (IH Hw').
+    assert (M : count lo n (cellsb (cur' :: r)) <= count lo n (cellsb (cur :: s :: r)) + count lo n (cellb (en cur, st s))).
+    { apply count_le_add. intros k _ Hk. apply cellsb_iff in Hk as [x [[<-|Hx] Hkx]].
+      - inversion Ha as [|? ? Hle _]; subst.
+        destruct (Z_lt_ge_dec k (en cur)); [left; apply cellsb_iff; exists cur; split; [now left | lia]|].
+        destruct (Z_lt_ge_dec k (st s)); [right; unfold cellb; change (st (en cur, st s)) with (en cur); change (en (en cur, st s)) with (st s); lia|].
+        left. apply cellsb_iff. exists s. split; [right; now left | lia].
+      - left. apply cellsb_iff. exists x. split; [right; now right | assumption]. }
+    assert (G : count lo n (cellb (en cur, st s)) <= eps).
+    { rewrite count_seg. change (st (en cur, st s)) with (en cur). change (en (en cur, st s)) with (st s). lia. }
+    cbn [length]. lia.
+  - intros cur s r Hc Hns Hlr Hs Ha E Ha' Lc Ls IH Hw.
+    rewrite th_zero_collar in E.
+    assert (Hw' : forall x, In x (s :: r) -> inwin x) by (intros x Hx; apply Hw; now right).
+    specialize (IH Hw'). rewrite sum_durations_cons.
+    destruct (Hw cur (or_introl eq_refl)) as [W1 W2].
+    rewrite (count_ext lo n (cellsb (cur :: s :: r)) (fun k => cellb cur k || cellsb (s :: r) k)) by reflexivity.
+    rewrite count_disjoint_or.
+    + rewrite count_seg. unfold duration, nonempty. destruct (en cur - st cur >? 0) eqn:E0; cbn [length]; lia.
+    + intros k _. destruct (cellb cur k) eqn:E1; [|reflexivity]. cbn [andb].
+      destruct (cellsb (s :: r) k) eqn:E2; [|reflexivity]. exfalso.
+      apply cellsb_iff in E2 as [x [Ix Hk]]. unfold cellb in E1.
+      assert (st s <= st x).
+      { destruct Ix as [<-|Ix]; [lia|]. unfold starts_after in Ha'. rewrite Forall_forall in Ha'. now apply Ha'. }
+      lia.
+Qed.
+
+Theorem duration_at_most_measure_plus l : wf eps l -> (forall s, In s l -> inwin s) ->
+  tl_duration eps l <= measure lo n l + eps * Z.of_nat (length l).
+Proof.
+  intros H Hw. unfold tl_duration.
+  destruct (support_iter_separated eps 0 Heps l H) as [_ Hn].
+  rewrite (sum_durations_nonempty eps _ Heps Hn).
+  destruct l as [|s r]; [unfold measure, sum_durations; simpl; pose proof (count_nonneg lo n (cellsb [])); lia|].
+  destruct (wf_pre eps 0 s r H) as [A [B [C D]]]. unfold support_iter.
+  pose proof (sweep_upper (s :: r) s A B C D) as U.
+  assert (Hw' : forall x, In x (s :: s :: r) -> inwin x) by (intros x [<-|Hx]; apply Hw; [now left | assumption]).
+  specialize (U Hw'). unfold measure.
+  rewrite (count_ext lo n (cellsb (s :: s :: r)) (cellsb (s :: r))) in U; [exact U|].
+  intros k _. unfold cellsb. simpl. destruct (cellb s k); reflexivity.
+Qed.
+End Upper.
